@@ -65,6 +65,20 @@ func OracleC19(tr *Trace) Verdict {
 			}
 		}
 	}
+	// when OnDemote is entered the term it reports has ended: its context must be done already
+	// (work bound to the context must not outlive the leadership, and OnDemote typically waits for that work)
+	failed := tr.failedStops()
+	for _, cb := range tr.CBs {
+		if cb.Kind != "demote-enter" || cb.T >= tr.End || cb.TermCtxDone != 0 {
+			continue
+		}
+		if fs, ok := failed[cb.Obj]; ok && cb.Seq > fs {
+			continue
+		}
+		v.Viols = append(v.Viols, Viol{At: cb.T, Sig: "C19 promote-ctx-still-live-when-ondemote-runs",
+			Msg: fmt.Sprintf("%s#%d: OnDemote entered at %v, but the context handed to the OnPromote callback of the term it ends is not cancelled yet", tr.ID(cb.Inst), cb.Obj, cb.T)})
+		break
+	}
 	causes := map[string]bool{}
 	for _, t := range tr.Terms {
 		c := termClaim[t.ID]
